@@ -87,10 +87,14 @@ TraceNext ==
 
 TraceSpec == TraceInit /\ [][TraceNext]_tvars
 
+\* The verdict: checked at every line.
 C10_CacheTransparent == err = <<>>
-OracleIsReference    == errRef = <<>>
-ModelFitsCode        == fit # {}
-ServedAsModelled     == errServed = <<>>
+\* Binding of the model to the code and of the oracle to the reference semantics: evaluated once
+\* the whole file has been read, so that they never pre-empt the verdict on a later line.
+AtEnd == l = Len(Trace) + 1
+OracleIsReference    == AtEnd => errRef = <<>>
+ModelFitsCode        == AtEnd => fit # {}
+ServedAsModelled     == AtEnd => errServed = <<>>
 
 \* the whole file was consumed; also reports which deviation sets explain the real cache
 TraceAccepted ==
